@@ -108,9 +108,13 @@ func c19Compare(tag string, got, want *updog.Index, names []string, recs [][]str
 }
 
 func HarnessC19Create() {
-	c19LongHeaderUsed = false
 	ncols := 1 + verifChoice("ncols", 2)
 	nrecs := verifChoice("nrecs", 2+verifTier())
+	// thorough: two records (with two columns the second record is a fixed one), and a two-byte
+	// first header for one column and up to one record (two records of two symbolic fields each,
+	// or the longer header with more fields, did not finish within 25 minutes)
+	concreteSecond := nrecs == 2 && ncols == 2 // then the second record is a fixed one
+	c19LongHeaderUsed = !(ncols == 1 && nrecs <= 1)
 	maxField := 1
 	var header, names []string
 	for j := 0; j < ncols; j++ {
@@ -125,6 +129,10 @@ func HarnessC19Create() {
 	for i := 0; i < nrecs; i++ {
 		var r []string
 		for j := 0; j < ncols; j++ {
+			if concreteSecond && i == 1 {
+				r = append(r, []string{"", "q"}[j])
+				continue
+			}
 			r = append(r, c19Field("f", maxField))
 		}
 		recs = append(recs, r)
